@@ -238,6 +238,8 @@ inductive Op where
   | ctxdel (ks : List String)
   | clearall
   | rehydrate
+  /-- the `save` function of the `blk`-th py block of the session (0-based), called now -/
+  | savecall (blk : Nat) (names : List String) (kvs : Env)
 
 inductive Mode where
   | now | child | old
@@ -275,6 +277,13 @@ def opOfJson (j : Json) : Except String Op := do
     return .ctxdel (← strList b)
   if let .ok _ := j.getObjVal? "clearall" then
     return .clearall
+  if let .ok p := j.getObjVal? "savecall" then
+    match p with
+    | .arr #[b, names, kvs] =>
+      let kvs ← envOfJson kvs
+      if !nodup (kvs.map (·.1)) then throw "duplicate keyword in savecall"
+      return .savecall (← jsonNat? b) (← strList names) kvs
+    | _ => throw "bad savecall"
   if let .ok k := j.getObjVal? "rehydrate" then
     let k ← k.getStr?
     if k != "pickle" && k != "deepcopy" && k != "copy" then throw s!"bad rehydrate kind {k}"
@@ -375,51 +384,62 @@ def runEvalMode (m : Mode) (fuel : Nat) (st : St) (e : Expr) : R V × St :=
   | .old => runEval true fuel st e
   | .child => runEvalChild fuel st e
 
-def runOps (m : Mode) (fuel : Nat) : List Op → St → List Json → List Json × Bool
+/-- `blks`: the namespace object of every py block the session has run so far, in order (`none`: the
+    Context that block's `save` closes over has been left behind by a rehydration). -/
+def runOps (m : Mode) (fuel : Nat) (blks : List (Option Nat)) : List Op → St → List Json → List Json × Bool
   | [], _, acc => (acc.reverse, false)
   | op :: rest, st, acc =>
     match op with
     | .pyimport b =>
       let st1 := runPyImport st b
-      runOps m fuel rest st1 (stepJson st1 (.ok .nothing) :: acc)
+      runOps m fuel blks rest st1 (stepJson st1 (.ok .nothing) :: acc)
     | .ctxset b =>
       let st1 := runCtxSet st b
-      runOps m fuel rest st1 (stepJson st1 (.ok .nothing) :: acc)
+      runOps m fuel blks rest st1 (stepJson st1 (.ok .nothing) :: acc)
     | .ctxdel ks =>
       let st1 := runCtxDel st ks
-      runOps m fuel rest st1 (stepJson st1 (.ok .nothing) :: acc)
+      runOps m fuel blks rest st1 (stepJson st1 (.ok .nothing) :: acc)
     | .clearall =>
       let st1 := runClearAll st
-      runOps m fuel rest st1 (stepJson st1 (.ok .nothing) :: acc)
+      runOps m fuel blks rest st1 (stepJson st1 (.ok .nothing) :: acc)
     | .rehydrate =>
       let st1 := runRehydrate st
-      runOps m fuel rest st1 (stepJson st1 (.ok .nothing) :: acc)
+      runOps m fuel (blks.map fun _ => none) rest st1 (stepJson st1 (.ok .nothing) :: acc)
     | .eval e =>
       match runEvalMode m fuel st e with
-      | (.ok v, st1) => runOps m fuel rest st1 (stepJson st1 (.ok (.val v)) :: acc)
+      | (.ok v, st1) => runOps m fuel blks rest st1 (stepJson st1 (.ok (.val v)) :: acc)
       | (.err er, st1) =>
         if fatal er then ((stepJson st1 (.err er) :: acc).reverse, true)
-        else runOps m fuel rest st1 (stepJson st1 (.err er) :: acc)
+        else runOps m fuel blks rest st1 (stepJson st1 (.err er) :: acc)
     | .evalset k e =>
       if m != .now then ((stepJson st (.err .outOfDomain) :: acc).reverse, true) else
       match runEvalSet fuel st k e with
-      | (.ok v, st1) => runOps m fuel rest st1 (stepJson st1 (.ok (.val v)) :: acc)
+      | (.ok v, st1) => runOps m fuel blks rest st1 (stepJson st1 (.ok (.val v)) :: acc)
       | (.err er, st1) =>
         if fatal er then ((stepJson st1 (.err er) :: acc).reverse, true)
-        else runOps m fuel rest st1 (stepJson st1 (.err er) :: acc)
+        else runOps m fuel blks rest st1 (stepJson st1 (.err er) :: acc)
     | .foreach e =>
       if m != .now then ((stepJson st (.err .outOfDomain) :: acc).reverse, true) else
       match runForeach fuel st e with
-      | (.ok vs, st1) => runOps m fuel rest st1 (stepJson st1 (.ok (.items vs)) :: acc)
+      | (.ok vs, st1) => runOps m fuel blks rest st1 (stepJson st1 (.ok (.items vs)) :: acc)
       | (.err er, st1) =>
         if fatal er then ((stepJson st1 (.err er) :: acc).reverse, true)
-        else runOps m fuel rest st1 (stepJson st1 (.err er) :: acc)
+        else runOps m fuel blks rest st1 (stepJson st1 (.err er) :: acc)
     | .exec b =>
       match runPyStep fuel st b with
-      | (.ok _, st1) => runOps m fuel rest st1 (stepJson st1 (.ok .nothing) :: acc)
+      | (.ok _, st1) => runOps m fuel (blks ++ [some st.next]) rest st1 (stepJson st1 (.ok .nothing) :: acc)
       | (.err er, st1) =>
         if fatal er then ((stepJson st1 (.err er) :: acc).reverse, true)
-        else runOps m fuel rest st1 (stepJson st1 (.err er) :: acc)
+        else runOps m fuel (blks ++ [some st.next]) rest st1 (stepJson st1 (.err er) :: acc)
+    | .savecall blk names kvs =>
+      match blks[blk]? with
+      | some (some k) =>
+        match runSaveCall st k names kvs with
+        | (.ok _, st1) => runOps m fuel blks rest st1 (stepJson st1 (.ok .nothing) :: acc)
+        | (.err er, st1) =>
+          if fatal er then ((stepJson st1 (.err er) :: acc).reverse, true)
+          else runOps m fuel blks rest st1 (stepJson st1 (.err er) :: acc)
+      | _ => ((stepJson st (.err .outOfDomain) :: acc).reverse, true)
 
 def handle (op : String) (j : Json) : Except String Json := do
   match op with
@@ -449,7 +469,7 @@ def handle (op : String) (j : Json) : Except String Json := do
     let st : St := { ctx := ctx, imps := imps, hidden := ("__builtins__", builtinsTok) :: hidden,
                      bi := bi.map (fun n => (n, V.tok .bi n)),
                      heap := heap, saved := [], nss := [], cur := 0, next := 0 }
-    let (steps, stopped) := runOps mode fuel ops st []
+    let (steps, stopped) := runOps mode fuel [] ops st []
     pure (Json.mkObj [("steps", Json.arr steps.toArray), ("stopped", Json.bool stopped)])
   | _ => .error s!"unknown op {op}"
 
